@@ -167,4 +167,98 @@ theorem ecliptical_rotation_orthogonal (p pie eta : ℝ) (u v : V3) :
     dot (flipZ (p + pie) (rotX (-eta) (flipZ pie u))) (flipZ (p + pie) (rotX (-eta) (flipZ pie v))) = dot u v := by
   rw [flipZ_dot, rotX_dot, flipZ_dot]
 
+/-- The rotation of `equatorial_is_rotation` written with the polynomials of the source themselves:
+    `Angle(0, 0, seconds)` acts as `seconds / 3600` degrees (its sexagesimal reduction only removes whole turns), so the
+    Euler angles are ζ, z, θ = (polynomial in T, t) / 3600 degrees, `T = (e0 - 2451545) / 36525`, `t = (e1 - e0) / 36525`. -/
+theorem equatorial_is_rotation_poly (e0 e1 α δ : ℝ) (hα : |α| < 360) (hδ : δ ≤ 85) (hδ' : -360 < δ) :
+    ∃ ra dec, precession_equatorial e0 e1 α δ 0 0 = .ok (ra, dec) ∧
+      dir ra dec = precessionRot (rad (fk5_zeta ((e0 - 2451545.0) / 36525.0) ((e1 - e0) / 36525.0) / 3600))
+        (rad (fk5_z ((e0 - 2451545.0) / 36525.0) ((e1 - e0) / 36525.0) / 3600))
+        (rad (fk5_theta ((e0 - 2451545.0) / 36525.0) ((e1 - e0) / 36525.0) / 3600)) (dir α δ) := by
+  have hd : |δ| < 360 := by rw [abs_lt]; constructor <;> linarith
+  obtain ⟨ra, dec, hok, hdir, _⟩ := precession_equatorial_rot e0 e1 α δ hα hd (Or.inl (not_lt.mpr hδ))
+  exact ⟨ra, dec, hok, by rw [hdir, precessionRot_fk5_poly]⟩
+
+/-- "a zero interval is the identity", FK4 variant. -/
+theorem newcomb_zero_interval (e α δ : ℝ) (hα : |α| < 360) (hδ : -90 ≤ δ ∧ δ ≤ 90) :
+    ∃ ra dec, precession_newcomb e e α δ 0 0 = .ok (ra, dec) ∧ dir ra dec = dir α δ := by
+  have hδ' : |δ| < 360 := by rw [abs_lt]; constructor <;> linarith [hδ.1, hδ.2]
+  have ht : (e - e) / 36524.2199 = (0 : ℝ) := by simp
+  obtain ⟨z1, z2, z3⟩ := newcomb_zero ((e - 2415020.3135) / 36524.2199)
+  have r0 : rad 0 = 0 := by unfold rad; ring
+  rw [precession_newcomb_eq, pm_zero hα, pm_zero hδ', ht, z1, z2, z3, a_of_sec_zero]
+  have h : ¬ (85 < δ) ∨ 0 ≤ (rotY (rad 0) (rotZ (rad 0) (dir α δ))).2.2 := by
+    by_cases h85 : 85 < δ
+    · right
+      rw [r0, rotZ_zero, rotY_zero]
+      show 0 ≤ sin (rad δ)
+      apply sin_nonneg_of_nonneg_of_le_pi <;> unfold rad
+      · exact mul_nonneg (by linarith) (by positivity)
+      · nlinarith [pi_pos, hδ.2]
+    · left; exact h85
+  obtain ⟨ra, dec, hok, hd, _⟩ := precession_apply_rot α δ 0 0 0 h
+  exact ⟨ra, dec, hok, by rw [hd, r0, precessionRot_zero]⟩
+
+/-- "a zero interval is the identity", ecliptical variant (every direction, both poles included). -/
+theorem ecliptical_zero_interval (e l b : ℝ) (hl : |l| < 360) (hb : |b| < 360) :
+    ∃ lon lat, precession_ecliptical e e l b 0 0 = .ok (lon, lat) ∧ dir lon lat = dir l b := by
+  have ht : (e - e) / 36525.0 = (0 : ℝ) := by simp
+  obtain ⟨z1, z2⟩ := ecl_zero ((e - 2451545.0) / 36525.0)
+  have r0 : rad 0 = 0 := by unfold rad; ring
+  rw [precession_ecliptical_eq, pm_zero hl, pm_zero hb, ht, z1, z2, a_of_sec_zero]
+  obtain ⟨lon, lat, hok, hd, _⟩ := ecl_core_spec l b 0
+    (a_add (a_of_sec (ecl_pie ((e - 2451545.0) / 36525.0) 0)) 174.876384) 0
+  exact ⟨lon, lat, hok, by rw [hd, r0, zero_add, neg_zero, rotX_zero, flipZ_flipZ]⟩
+
+/-- `p_motion_equa2eclip` is the same rigid rotation applied to the proper-motion vector: the total proper motion
+    `sqrt((μ_lon cos β)² + μ_lat²)` equals `sqrt((μ_α cos δ)² + μ_δ²)` (radians per year), whenever the latitude `β`
+    passed in is the ecliptical latitude of (α, δ) and is not ±90° (the source divides by `cos β`). -/
+theorem proper_motion_total_invariant (μα μδ α δ β ε : ℝ)
+    (hβ : sin (rad β) = sin (rad δ) * cos (rad ε) - cos (rad δ) * sin (rad ε) * sin (rad α))
+    (hc : cos (rad β) ≠ 0) :
+    ∃ μl μb, p_motion_equa2eclip μα μδ α δ β ε = .ok (μl, μb) ∧
+      (μl * cos (rad β)) ^ 2 + μb ^ 2 = (rad μα * cos (rad δ)) ^ 2 + (rad μδ) ^ 2 := by
+  have k1 := m_div_ok (x := a_rad μδ * (psin (a_rad ε) * pcos (a_rad α)) + a_rad μα * pcos (a_rad δ)
+      * (pcos (a_rad ε) * pcos (a_rad δ) + psin (a_rad ε) * psin (a_rad δ) * psin (a_rad α)))
+      (y := pcos (a_rad β) * pcos (a_rad β)) (mul_ne_zero hc hc)
+  have k2 := m_div_ok (x := a_rad μδ * (pcos (a_rad ε) * pcos (a_rad δ) + psin (a_rad ε) * psin (a_rad δ) * psin (a_rad α))
+      - a_rad μα * pcos (a_rad δ) * (psin (a_rad ε) * pcos (a_rad α)))
+      (y := pcos (a_rad β)) hc
+  unfold p_motion_equa2eclip
+  simp only [k1, k2, bind, Except.bind, pure, Except.pure]
+  refine ⟨_, _, rfl, ?_⟩
+  simp only [psin, pcos, a_rad_eq]
+  have hAB : (sin (rad ε) * cos (rad α)) ^ 2
+      + (cos (rad ε) * cos (rad δ) + sin (rad ε) * sin (rad δ) * sin (rad α)) ^ 2 = cos (rad β) ^ 2 := by
+    linear_combination (-1) * sin_sq_add_cos_sq (rad β)
+      + (sin (rad β) + (sin (rad δ) * cos (rad ε) - cos (rad δ) * sin (rad ε) * sin (rad α))) * hβ
+      + (cos (rad ε) ^ 2 + sin (rad ε) ^ 2 * sin (rad α) ^ 2) * sin_sq_add_cos_sq (rad δ)
+      + sin (rad ε) ^ 2 * sin_sq_add_cos_sq (rad α) + sin_sq_add_cos_sq (rad ε)
+  field_simp
+  linear_combination ((rad μδ) ^ 2 + (rad μα * cos (rad δ)) ^ 2) * hAB
+
+/-- `mean_obliquity` at J2000.0 is 23°26'21.448". -/
+theorem mean_obliquity_j2000 : mean_obliquity 2451545 = 23 + 26 / 60 + 21.448 / 3600 := by
+  unfold mean_obliquity
+  have h0 : ((2451545 : ℝ) - 2451545.0) / 3652500.0 = 0 := by norm_num
+  simp only [h0, zero_mul, a_of_sec_zero]
+  unfold a_add
+  rw [add_zero, a_reduce_of_lt]
+  · norm_num
+  · rw [abs_lt]; constructor <;> norm_num
+
+/-- `motion_in_space`: the star moves uniformly on a straight line: the direction returned is that of
+    `r u + t V`, `V = (v / 977792) u + r μδ north + r μα cos δ east` — the displacement is LINEAR in the elapsed
+    time — for every distance `r ≠ 0` as long as the new position is not on the polar axis (the source divides by
+    `sqrt(x'² + y'²)`). -/
+theorem motion_in_space_is_linear (α δ r v μα μδ t : ℝ) (hr : r ≠ 0)
+    (hρ : 0 < (spacePosition α δ r v (rad μα) (rad μδ) t).1 ^ 2 + (spacePosition α δ r v (rad μα) (rad μδ) t).2.1 ^ 2) :
+    ∃ ra dec, motion_in_space α δ r v μα μδ t = .ok (ra, dec) ∧
+      dir ra dec =
+        ((spacePosition α δ r v (rad μα) (rad μδ) t).1 / √(dot (spacePosition α δ r v (rad μα) (rad μδ) t) (spacePosition α δ r v (rad μα) (rad μδ) t)),
+         (spacePosition α δ r v (rad μα) (rad μδ) t).2.1 / √(dot (spacePosition α δ r v (rad μα) (rad μδ) t) (spacePosition α δ r v (rad μα) (rad μδ) t)),
+         (spacePosition α δ r v (rad μα) (rad μδ) t).2.2 / √(dot (spacePosition α δ r v (rad μα) (rad μδ) t) (spacePosition α δ r v (rad μα) (rad μδ) t))) ∧
+      -90 ≤ dec ∧ dec ≤ 90 :=
+  motion_in_space_spec α δ r v μα μδ t hr hρ
+
 end Pymeeus.C06
